@@ -81,7 +81,28 @@ def view_of(eng, D, A, st, ep, T, scales, K):
     return False, None
 
 
+def r5_reference_constants(chk, F):
+    """The public reference-epoch constants denote the instants the statement fixes: J2000 is 3 155 716 800 s after 1900-01-01
+    00:00 (2000-01-01 12:00), the UNIX origin is 1970-01-01 00:00."""
+    rule = "C17.R5"
+    NPC = F.const("duration::NANOSECONDS_PER_CENTURY")["v"]
+    for name, want_ns, what in (("timescale::J2000_REF_EPOCH", K_J2000, "2000-01-01T12:00:00=1900-01-01T00:00:00+3155716800s"),
+                                ("timescale::UNIX_REF_EPOCH", K_UNIX, "1970-01-01T00:00:00")):
+        try:
+            v = F.const(name)["v"]
+        except Exception:
+            chk.anchor_missing(name)
+            continue
+        f = dict(v["fields"])
+        d = dict(f["duration"]["fields"])
+        tot = d["centuries"] * NPC + d["nanoseconds"]
+        ok = tot == want_ns and f["time_scale"]["variant"] in ("TAI", "UTC", "TT")
+        chk.ob(rule, name.split("::")[-1], "==" + what, ok, "decoded constant vs statement",
+               detail=None if ok else {"constant_ns_after_1900": tot, "statement_ns": want_ns, "difference_days": (tot - want_ns) / 86400e9})
+
+
 def run(chk, F, tier):
+    r5_reference_constants(chk, F)
     eng, D = ctx(F)
     A = EpochAlg(F, eng, D)
     eng.max_steps = 40000
